@@ -32,7 +32,7 @@ META = {
                     'like-for-like comparison: routes that load the model from a file rely on save/load preserving the model (C07)'],
     'shards': {'quick': 4, 'thorough': 16},
     'quotas': {
-        'quick': {'inprocess-pairs': 100, 'child-processes': 10, 'digests-compared': 500, 'route:wrapper-mal-json/analysed': 10,
+        'quick': {'inprocess-pairs': 100, 'child-processes': 5, 'digests-compared': 500, 'route:wrapper-mal-json/analysed': 10,
                   'route:wrapper-mar-yml/bare': 10, 'inputs-unchanged-checks': 100},
         'thorough': {'inprocess-pairs': 10000, 'child-processes': 80, 'digests-compared': 20000,
                      'route:wrapper-mal-json/analysed': 1000, 'route:wrapper-mar-yml/bare': 1000,
